@@ -429,6 +429,9 @@ func (x *TopicsIndex) Unsubscribe(filter, client string) bool {
 	prefix, _ := isolateParticle(filter, 0)
 	shareSub := strings.EqualFold(prefix, SharePrefix)
 	if shareSub {
+		if _, hasTopic := isolateParticle(filter, 1); !hasTopic {
+			return false // "$share" or "$share/group": no topic filter follows, nothing can be subscribed under it
+		}
 		d = 2
 	}
 
